@@ -476,15 +476,18 @@ class C05(ResolveSpec):
     level_text = ("Theorems C05_exact_meaning / C05_closure_is_least (the DFS of CriteriaMapper::new computes exactly the reflexive-"
                   "transitive closure of the direct implications, for every table), C05_reorder_duplicate, C05_replace_by_closure, "
                   "C05_replace_by_minimal, C05_minimal_has_no_implied_duplicates, C05_edges_use_closure: a written list denotes the "
-                  "union of the closures of its members and the audit graph reads lists only through that set. The verdict invariance "
-                  "itself is exercised metamorphically on the implementation (original vs rewritten stores).")
+                  "union of the closures of its members and the audit graph reads lists only through that set. VERDICT LEVEL: "
+                  "C05_verdict_invariant_under_rewriting — rewriting every criteria list of every audit, wildcard audit, trusted entry "
+                  "and exemption of a store to any list with the same from_list leaves the WHOLE report of resolve identical (all "
+                  "graphs and stores), with the three rewritings the property names as corollaries (reorder/duplicate, closure, "
+                  "minimal generating set). The same rewritings are also run metamorphically on the implementation.")
     level_note = ("Closure algebra proved for the model's fuelled DFS (fuel n+1 shown sufficient). Verdict invariance across rewritten stores "
                   "is a differential/metamorphic test, not a theorem. Violation-entry lists are excluded: rewriting them changes the "
                   "verdict by design (book/src/algorithm.md) — recorded as known finding F-C05v.")
     design_ref = "DESIGN.md §4 C05"
     coq_files = ["Properties/C05.v"]
     theorems = ["C05_exact_meaning", "C05_closure_is_least", "C05_reorder_duplicate", "C05_replace_by_closure",
-                "C05_replace_by_minimal", "C05_minimal_has_no_implied_duplicates", "C05_edges_use_closure"]
+                "C05_replace_by_minimal", "C05_minimal_has_no_implied_duplicates", "C05_edges_use_closure", "C05_verdict_invariant_under_rewriting", "C05_verdict_invariant_reorder_duplicate", "C05_verdict_invariant_closure", "C05_verdict_invariant_minimal"]
     rule = ("criteria tables with 2-4 custom criteria (chains, diamonds, customs implying built-ins); every base store is paired with "
             "rewritten stores (all non-violation lists replaced by their closure / minimal set / shuffled+duplicated; records for a "
             "crate outside the graph added); non-trivial = the base store has a custom criterion with a non-empty implies list and a "
